@@ -228,7 +228,10 @@ def run_program(prog: list[dict]) -> list[dict] | None:
                 obs["leak"] = watch.update_and_count(mgx.H)
             except OutOfModel:
                 return None
-            lines.append({"stmt": s, "obs": obs, "exc": e_mg, "exc_np": e_np})
+            line = {"stmt": s, "obs": obs, "exc": e_mg, "exc_np": e_np}
+            if e_mg == "InvalidBackprop" and s["k"] == "backward":
+                line["retry_exc"] = _step(mgx, s)      # a refused backward must be refused again when asked again (C09)
+            lines.append(line)
             if e_mg != "none" and s["k"] == "backward":
                 break  # an aborted backward leaves gradients unspecified (C09): the trace ends here
         return lines
